@@ -83,7 +83,10 @@ static void waiter_thr (void *a) {
 	case 3: f = two; arg = &b2; break;                 /* different function */
 	default: f = NULL; arg = NULL; break;              /* no condition */
 	}
-	if (timed) dl = vrt_abs ((int64_t) vrt_rand (5) * 900 - 900);
+	/* VRT_FINE=<ns>: deadlines at nanosecond granularity inside the busy part of the run (the virtual clock advances 1 ns per
+	   step), so that timeouts fire INSIDE other threads' unlock / scan / wake windows rather than only while everybody sleeps */
+	if (vrt_opt ("FINE", 0) > 0) { timed = vrt_rand (3) != 0; }
+	if (timed) dl = vrt_opt ("FINE", 0) > 0 ? vrt_abs ((int64_t) vrt_rand ((uint32_t) vrt_opt ("FINE", 0))) : vrt_abs ((int64_t) vrt_rand (5) * 900 - 900);
 	if (writer) { nsync_mu_lock (&mu); wsection_begin (); } else { nsync_mu_rlock (&mu); vrt_acquired (&mu, 0); }
 	if (writer) wsection_end (); else vrt_releasing (&mu, 0);
 	announce_wait (f, arg, eq != NULL, timed, dl, canc);
